@@ -687,6 +687,47 @@ def _filled_like(f, vref):
     return None
 
 
+def subscript_in_range(f, g, x):
+    """(ok, why) for one std::vector subscript x of function f with flow graph g — see analyser_subscripts"""
+    V = SX.show(_peel(x['base']))
+    node = _cfg_node_containing(g, x)
+    ok, why = False, 'no dominating range test on %s' % V
+    if node is not None:
+        gs = list(g.guards(node))
+        k = int_const(x['i'])
+        if k is not None:
+            for ce, pol, ed in gs:
+                lb = _size_lower_bound(ce, pol, V)
+                if lb is not None and lb > k:
+                    ok, why = True, 'dominated by %s (%s)' % (SX.show(ce)[:50], pol)
+                    break
+        else:
+            base, off = _lin(x['i'])
+            if base is not None and off >= 0:
+                for ce, pol, ed in gs:
+                    r_ = _bound_test(ce, pol, base, V)
+                    if r_ is not None and r_ >= off and _no_write_between(g, ed, node, base):
+                        ok, why = True, 'dominated by %s (%s)' % (SX.show(ce)[:50], pol)
+                        break
+                if not ok:
+                    # bounded on another vector W that a dominating test makes as long as V
+                    for ce, pol, ed in gs:
+                        cp = SX.cmp_parts(ce)
+                        if not cp:
+                            continue
+                        for side in (cp[1], cp[2]):
+                            s_ = _peel(side)
+                            if SX.is_node(s_) and s_.get('k') == 'mcall' and SX.short(s_.get('callee', '')) == 'size':
+                                W = SX.show(_peel(s_.get('obj')))
+                                r_ = _bound_test(ce, pol, base, W)
+                                if r_ is not None and r_ >= off and W != V and _no_write_between(g, ed, node, base):
+                                    if any(_same_size_fact(c2, p2, V, W) for c2, p2, e2 in gs):
+                                        ok, why = True, 'bounded by %s.size(), and %s.size() == %s.size() holds here' % (W, V, W)
+                                    elif _filled_like(f, _peel(x['base'])) == W:
+                                        ok, why = True, 'bounded by %s.size(); %s holds one element per element of %s (filled by one push per iteration of a full loop over it)' % (W, V, W)
+    return ok, why
+
+
 def analyser_subscripts(prog, chk):
     """R13.3 for the semantic analyser: every subscript of a std::vector is known to be in range where it is evaluated — by a
     dominating test `i < v.size()` on the same vector, by the bound of the enclosing counted loop (on the same vector, or on a
@@ -701,42 +742,7 @@ def analyser_subscripts(prog, chk):
         g = prog.cfg(f)
         for x in subs:
             n += 1
-            V = SX.show(_peel(x['base']))
-            node = _cfg_node_containing(g, x)
-            ok, why = False, 'no dominating range test on %s' % V
-            if node is not None:
-                gs = list(g.guards(node))
-                k = int_const(x['i'])
-                if k is not None:
-                    for ce, pol, ed in gs:
-                        lb = _size_lower_bound(ce, pol, V)
-                        if lb is not None and lb > k:
-                            ok, why = True, 'dominated by %s (%s)' % (SX.show(ce)[:50], pol)
-                            break
-                else:
-                    base, off = _lin(x['i'])
-                    if base is not None and off >= 0:
-                        for ce, pol, ed in gs:
-                            r_ = _bound_test(ce, pol, base, V)
-                            if r_ is not None and r_ >= off and _no_write_between(g, ed, node, base):
-                                ok, why = True, 'dominated by %s (%s)' % (SX.show(ce)[:50], pol)
-                                break
-                        if not ok:
-                            # bounded on another vector W that a dominating test makes as long as V
-                            for ce, pol, ed in gs:
-                                cp = SX.cmp_parts(ce)
-                                if not cp:
-                                    continue
-                                for side in (cp[1], cp[2]):
-                                    s_ = _peel(side)
-                                    if SX.is_node(s_) and s_.get('k') == 'mcall' and SX.short(s_.get('callee', '')) == 'size':
-                                        W = SX.show(_peel(s_.get('obj')))
-                                        r_ = _bound_test(ce, pol, base, W)
-                                        if r_ is not None and r_ >= off and W != V and _no_write_between(g, ed, node, base):
-                                            if any(_same_size_fact(c2, p2, V, W) for c2, p2, e2 in gs):
-                                                ok, why = True, 'bounded by %s.size(), and %s.size() == %s.size() holds here' % (W, V, W)
-                                            elif _filled_like(f, _peel(x['base'])) == W:
-                                                ok, why = True, 'bounded by %s.size(); %s holds one element per element of %s (filled by one push per iteration of a full loop over it)' % (W, V, W)
+            ok, why = subscript_in_range(f, g, x)
             chk.ob('R13.3', f, x.get('ln', f.ln), ok, 'analyser subscript %s: %s' % (SX.show(x)[:40], why), key='an-subscript:%s:%s' % (f.short, SX.show(x)[:30]))
     return n
 
